@@ -5,7 +5,7 @@ cd /repo || exit 2
 git diff --quiet || { echo "/repo not clean"; exit 2; }
 git apply "$patch" || { echo "patch does not apply"; exit 2; }
 cd /verif
-./check "$id" --tier "$tier" > /tmp/mutest.$$.log 2>&1
+GOSYM_EVIDENCE_DIR=/verif/.work/mut-evidence ./check "$id" --tier "$tier" > /tmp/mutest.$$.log 2>&1
 rc=$?
 git -C /repo checkout -- . ; git -C /repo clean -fdq
 echo "rc=$rc"; grep -c "^VIOLATION" /tmp/mutest.$$.log | sed 's/^/violations=/'
